@@ -193,8 +193,8 @@ class Repo:
 
         return resolve
 
-    def walker(self, inline_depth=0, max_paths=4096, recv_types=None, fold=None):
-        return Walker(self.resolver(recv_types), max_paths=max_paths, inline_depth=inline_depth, fold=fold)
+    def walker(self, inline_depth=0, max_paths=4096, recv_types=None, fold=None, tag=None):
+        return Walker(self.resolver(recv_types), max_paths=max_paths, inline_depth=inline_depth, fold=fold, tag=tag)
 
     # ------------------------------------------------------ strategy table
     def strategies(self, ci):
